@@ -9,10 +9,12 @@ EXTENDS Integers, Sequences, FiniteSets, TLC, Json, IOUtils
 
 Input == JsonDeserialize(IOEnv.TRACE_FILE)
 Traces == Input.traces
-NArgs == 9
+NArgs == 10
 (* x -> 2x+1 on 1.0, 2.0, [1,2], [1,3], -1.0, -2.0, and on arrays that BROADCAST to an earlier argument without being *)
 (* it: the empty array, the one-element array [1] and the constant array [1,1] (next to the scalar 1.0)              *)
-F == <<<<3>>, <<5>>, <<3, 5>>, <<3, 7>>, <<-1>>, <<-3>>, <<>>, <<3>>, <<3, 3>>>>
+(* ... and on a call with TWO positional arguments (1.0, 4.0) of a function with an optional second parameter,      *)
+(* whose leading argument equals argument 1                                                                       *)
+F == <<<<3>>, <<5>>, <<3, 5>>, <<3, 7>>, <<-1>>, <<-3>>, <<>>, <<3>>, <<3, 3>>, <<7>>>>
 MaxOps == 0
 VARIABLES tid, l, ws
 U == INSTANCE HgUserFcn WITH w <- ws, applied <- {}, n <- 0, lastret <- <<>>, lastarg <- 0
